@@ -1,136 +1,148 @@
-// scratch probe (to be replaced by the harness)
+// c06 — correspondence harness + property search for C06 (most-work valid tip, UTXO = replay, undo leaves no residue).
+//
+// Real code: chain.Chain (CheckBlock + AcceptBlock, Idle, UndoLastBlock) on synthetic chains (chainkit), optionally with
+// utxo.Memory_Malloc/Memory_Free wired to lib/others/memory as client/common does, and the client's DefragUTXOMem body.
+// Model: lean oracle_c06 (Model/UtxoOps + Model/ChainTree), fed the same deliveries.
+// Property predicate (independent of both): a reference replay written here (ref.go) — validity of every block in the
+// context of its own branch, exact cumulative work with math/big, first-seen tie-break, UTXO set of a path from genesis.
 package main
 
 import (
+	"encoding/json"
 	"fmt"
 	"os"
+	"runtime/pprof"
+	"sort"
+	"strings"
+	"syscall"
 
-	"github.com/piotrnar/gocoin/lib/btc"
-	"github.com/piotrnar/gocoin/lib/chain"
-	"github.com/piotrnar/gocoin/lib/others/memory"
-	"github.com/piotrnar/gocoin/lib/utxo"
-	"verif/chainkit"
 	"verif/vlib"
 )
 
-func diff(a, b []string) string {
-	m := map[string]int{}
-	for _, x := range a {
-		m[x]++
+var r *vlib.Run
+var o *vlib.Oracle
+
+var savedStdout *os.File
+var savedStderrFd = -1
+
+// gocoin prints a lot while reorganising (fmt.Println → os.Stdout, println → fd 2): silence both while scenarios run.
+func quiet() {
+	dn, err := os.OpenFile(os.DevNull, os.O_WRONLY, 0)
+	if err != nil {
+		return
 	}
-	for _, x := range b {
-		m[x]--
+	savedStdout = os.Stdout
+	os.Stdout = dn
+	if os.Getenv("C06_VERBOSE") == "" {
+		savedStderrFd, _ = syscall.Dup(2)
+		syscall.Dup2(int(dn.Fd()), 2)
 	}
-	s := ""
-	for k, v := range m {
-		if v != 0 {
-			s += fmt.Sprintf("  %+d %s\n", v, k[:40])
-		}
-	}
-	return s
 }
 
-func probeF7() {
-	mem := memory.NewAllocator()
-	utxo.Memory_Malloc = mem.Malloc
-	utxo.Memory_Free = mem.Free
-	k, _ := chainkit.New(chainkit.Opts{}, vlib.NewRng(1))
-	defer k.Close()
-	// fragmentation: 16 pages worth of fillers per record size, 98% freed
-	var keep []*[]byte
-	for _, sz := range []int{40, 46, 60, 70} {
-		var fl []*[]byte
-		for i := 0; i < 200000; i++ {
-			fl = append(fl, mem.Malloc(sz))
-		}
-		for i, p := range fl {
-			if i%50 == 0 {
-				keep = append(keep, p)
-			} else {
-				mem.Free(p)
-			}
-		}
+func loud() {
+	if savedStdout != nil {
+		os.Stdout = savedStdout
+		savedStdout = nil
 	}
-	var cbs []*btc.Tx
-	for i := 0; i < 103; i++ {
-		cb, _ := k.MustExtend(nil, 0)
-		cbs = append(cbs, cb)
+	if savedStderrFd >= 0 {
+		syscall.Dup2(savedStderrFd, 2)
+		syscall.Close(savedStderrFd)
+		savedStderrFd = -1
 	}
-	fork := k.Ch.LastBlock()
-	before := chainkit.UtxoDump(k.Ch.Unspent)
-	// branch A: one block spending cbs[0] into two outputs
-	c0 := chainkit.OutCoins(cbs[0], nil, 1, true)[0]
-	tx := chainkit.BuildTx(2, []*chainkit.Coin{c0}, nil, []chainkit.OutSpec{{20e8, chainkit.AnyoneScript}, {30e8, chainkit.AnyoneScript}}, 0)
-	k.MustExtend([]*btc.Tx{tx}, 0)
-	// branch B: two empty blocks on fork
-	b1 := k.Build(chainkit.BlockSpec{Parent: fork})
-	fmt.Println("B1:", k.Submit(b1).String())
-	n1 := k.Ch.BlockIndex[btc.NewSha2Hash(b1[:80]).BIdx()]
-	b2 := k.Build(chainkit.BlockSpec{Parent: n1})
-	fmt.Println("B2:", k.Submit(b2).String())
-	fmt.Println("tip height", k.Ch.LastBlock().Height, "tip is B2:", k.Ch.LastBlock().Parent == n1)
-	after := chainkit.UtxoDump(k.Ch.Unspent)
-	fmt.Println("after reorg: utxo", len(after), "before-fork", len(before))
-	// now defrag as client does
-	fill := map[*[]byte]bool{}
-	for _, p := range keep {
-		fill[p] = true
-	}
-	cnt := mem.DefragAllImproved(func(o, n *[]byte) {
-		if fill[o] {
-			delete(fill, o)
-			fill[n] = true
-			return
-		}
-		k.Ch.Unspent.Relocate(o, n)
-	})
-	fmt.Println("defrag relocated", cnt)
-	after2 := chainkit.UtxoDump(k.Ch.Unspent)
-	fmt.Println("after defrag: utxo", len(after2))
-	fmt.Print(diff(after2, after))
-	_ = keep
 }
 
-func probeDel(idle bool) {
-	k, _ := chainkit.New(chainkit.Opts{}, vlib.NewRng(1))
-	defer k.Close()
-	var cbs []*btc.Tx
-	for i := 0; i < 103; i++ {
-		cb, _ := k.MustExtend(nil, 0)
-		cbs = append(cbs, cb)
-	}
-	fork := k.Ch.LastBlock()
-	k.MustExtend(nil, 0) // A1
-	k.MustExtend(nil, 0) // A2
-	node := func(raw []byte) *chain.BlockTreeNode { return k.Ch.BlockIndex[btc.NewSha2Hash(raw[:80]).BIdx()] }
-	b1 := k.Build(chainkit.BlockSpec{Parent: fork})
-	fmt.Println("B1:", k.Submit(b1).String())
-	// B2 double spends cbs[0] in two txs
-	c0 := chainkit.OutCoins(cbs[0], nil, 1, true)[0]
-	t1 := chainkit.BuildTx(2, []*chainkit.Coin{c0}, nil, []chainkit.OutSpec{{20e8, chainkit.AnyoneScript}}, 0)
-	t2 := chainkit.BuildTx(2, []*chainkit.Coin{c0}, nil, []chainkit.OutSpec{{21e8, chainkit.AnyoneScript}}, 0)
-	b2 := k.Build(chainkit.BlockSpec{Parent: node(b1), Txs: []*btc.Tx{t1, t2}})
-	fmt.Println("B2:", k.Submit(b2).String())
-	if idle {
-		k.Ch.Idle()
-	}
-	b3 := k.Build(chainkit.BlockSpec{Parent: node(b2)})
-	fmt.Println("B3:", k.Submit(b3).String())
-	fmt.Println("tip height", k.Ch.LastBlock().Height)
-	ok := k.Ch.BlockIndexAccess.TryLock()
-	fmt.Println("BlockIndexAccess free:", ok)
-	if ok {
-		k.Ch.BlockIndexAccess.Unlock()
-	}
+type replayDoc struct {
+	Scenario string   `json:"scenario"` // corpus name or "random"
+	Alloc    bool     `json:"alloc"`
+	SubSeed  uint64   `json:"subseed"`
+	Size     int      `json:"size"`
+	Step     int      `json:"failing_step"`
+	Ops      []string `json:"ops,omitempty"` // human-readable trace up to the failure
+	Detail   string   `json:"detail,omitempty"`
 }
 
 func main() {
-	switch os.Args[1] {
-	case "f7":
-		probeF7()
-	case "del":
-		probeDel(false)
-	case "delidle":
-		probeDel(true)
+	r = vlib.NewRun("C06")
+	var err error
+	o, err = vlib.StartOracle("c06")
+	if err != nil {
+		fmt.Println("cannot start oracle:", err)
+		os.Exit(3)
 	}
+	defer o.Close()
+	quiet()
+	if pf := os.Getenv("C06_PROF"); pf != "" {
+		f, _ := os.Create(pf)
+		pprof.StartCPUProfile(f)
+		defer pprof.StopCPUProfile()
+		n := 6
+		for i := 0; i < n; i++ {
+			runScenario("random", false, uint64(i+1), 20)
+		}
+		runScenario("random", true, 77, 12)
+		pprof.StopCPUProfile()
+		loud()
+		os.Exit(0)
+	}
+
+	rule := "scenario = a block tree above a 101..108-block base chain (multi-output coinbases), 8..28 blocks, forks of depth 1..k incl. forks below the base tip, equal-work ties, invalid-when-connected blocks (double spend, missing / cross-branch input, immature coinbase, failing script, overspend, coinbase overpay, own-coinbase spend, vout out of range) anywhere incl. on the winning branch and with descendants, random spend graphs (1..3 inputs, 1..4 outputs, partial spends, in-block chains); delivery = random topological order with children tried before parents, Idle() calls, final unwind of up to 6 blocks; second stream with the memory allocator wired and DefragAllImproved(Relocate) between deliveries. Hand-made corpus scenarios first (past defects, ties, genesis fork, retarget/float work). One evaluation = one delivery/idle/defrag/undo step compared three ways; distinct = distinct (tip, utxo digest, outcome) observations"
+	expl := "after EVERY step the real chain's tip hash + full decoded UTXO dump + outcome are compared with (a) the Lean model (oracle_c06) and (b) the property predicate evaluated by an independent Go reference: tip = first-seen maximum-exact-work node whose whole branch is valid, UTXO = replay of that branch from genesis; undo files of the active branch present (model) and actually usable (final unwind on the real chain)"
+
+	if r.Replay != "" {
+		b, err := os.ReadFile(r.Replay)
+		if err != nil {
+			loud()
+			fmt.Println("cannot read replay:", err)
+			os.Exit(3)
+		}
+		var doc struct {
+			Replay replayDoc `json:"replay"`
+		}
+		json.Unmarshal(b, &doc)
+		if doc.Replay.Scenario == "" {
+			loud()
+			fmt.Println("replay: nothing to re-run for this file (proof-level violation); see its 'broken' field")
+			r.Finish("replay", "replay")
+		}
+		runScenario(doc.Replay.Scenario, doc.Replay.Alloc, doc.Replay.SubSeed, doc.Replay.Size)
+		loud()
+		r.Finish("replay of one recorded scenario", "replay")
+	}
+
+	// 1. corpus
+	for _, c := range corpusList {
+		if c.thoroughOnly && !r.Thorough() {
+			continue
+		}
+		runScenario(c.name, c.alloc, 1, 0)
+	}
+	// 2. random trees, plain stream
+	g := r.Rng
+	n := r.N(26, 420)
+	for i := 0; i < n; i++ {
+		runScenario("random", false, g.U64(), 8+g.Intn(21))
+	}
+	// 3. random trees with the allocator wired + defrag between deliveries
+	n = r.N(5, 60)
+	for i := 0; i < n; i++ {
+		runScenario("random", true, g.U64(), 8+g.Intn(16))
+	}
+
+	r.Assume = []string{
+		"script verification results are an input of the model (property C01); the harness labels a transaction's scripts as failing exactly when it spends an output it created with the always-false script or signs with the wrong key",
+		"no two transactions share a txid or an 8-byte txid prefix (BIP30/34; the key-prefix aliasing is property C04)",
+		"value sums stay below 2^64 (property C04)",
+		"headers are valid (PoW, time, bits, merkle: property C05); only tree- and UTXO-related acceptance is modelled",
+		"work is compared exactly (rationals) in model and reference; the code's float64 sums differ only on near-ties (corpus scenario o1-float-tie)",
+	}
+	keys := make([]string, 0, len(outcomeSeen))
+	for k := range outcomeSeen {
+		keys = append(keys, k)
+	}
+	sort.Strings(keys)
+	r.Extra["outcomes_seen_in_model_and_impl"] = strings.Join(keys, " ")
+	loud()
+	r.Finish(rule, expl)
 }
+
+var outcomeSeen = map[string]bool{}
